@@ -540,19 +540,49 @@ def build_slice(rng, big=False):
     return t
 
 
-def gen_topo_case(rng, big=False):
+def gen_topo_case(rng, big=False, variant=None):
+    """variant 'plain': a fresh topology loads the text; 'reload': the SAME long-lived topology takes a snapshot, is
+    modified (a node removed through the API) and loads the snapshot back under its own id; 'presave': an earlier, larger
+    state was saved to the same path before (a node is removed through the API in between), then the file is loaded"""
     kind = rng.choice(['site', 'slice'])
     t = build_site(rng, big) if kind == 'site' else build_slice(rng, big)
     gid = t.graph_model.graph_id
-    g = nx_to_case_graph(t.graph_model.storage.extract_graph(gid))
-    t.graph_model.importer.delete_all_graphs()
     gid2 = 'topo-' + kind          # stable graph id instead of the uuid
-    for _, d in g['nodes']:
-        d['GraphID'] = gid2
-    new = rng.choice([gid2, 'reloaded'])
-    return {'kind': 'topo', 'profile': kind, 'pre': [[True, gid2, g]], 'src': gid2, 'raw': {'nodes': [], 'edges': []},
-            'fmt': rng.randrange(2), 'ep': rng.randrange(4), 'gid': new, 'watch': [gid2, new] if new != gid2 else [gid2],
-            'topo': kind}
+
+    def snap():
+        gg = nx_to_case_graph(t.graph_model.storage.extract_graph(gid))
+        for _, d in gg['nodes']:
+            d['GraphID'] = gid2
+        return gg
+    g = snap()
+    variant = variant or rng.choice(['plain', 'plain', 'reload', 'reload', 'presave'])
+    names = sorted(t.nodes.keys())
+    victim = rng.choice(names) if len(names) > 1 else None
+    c = {'kind': 'topo', 'profile': kind + '/' + variant, 'pre': [[True, gid2, g]], 'src': gid2,
+         'raw': {'nodes': [], 'edges': []}, 'fmt': rng.randrange(2), 'ep': rng.randrange(4), 'gid': rng.choice([gid2, 'reloaded']),
+         'topo': kind, 'peek': False}
+    if variant == 'reload':
+        c['reload'] = True
+        c['gid'] = gid2                                   # load(.., new_graph_id = the current id) / direct: id kept
+        c['modify'] = victim if rng.random() < 0.75 else None
+    elif variant == 'presave':
+        c['ep'] = rng.choice([2, 3])
+        ps_fmt = rng.randrange(2)
+        smaller = None
+        if victim is not None:
+            try:
+                t.remove_node(name=victim)
+                smaller = snap()
+            except Exception:
+                smaller = None
+        if smaller is not None and smaller['nodes']:
+            c['pre'] = [[True, gid2, smaller]]            # the current state: one node (with its components) fewer
+        else:
+            ps_fmt, c['fmt'] = 0, 1                       # same state, GraphML first, the shorter JSON over it
+        c['presave'] = {'graph': g, 'fmt': ps_fmt}
+    t.graph_model.importer.delete_all_graphs()
+    c['watch'] = [gid2, c['gid']] if c['gid'] != gid2 else [gid2]
+    return c
 
 
 # ------------------------------------------------------------------------------------------------
@@ -631,6 +661,7 @@ class Run:
                     out['after_loads'][gid] = {'error': type(e).__name__}
             topo = None
             text = None
+            names0 = None
             try:
                 if case['src'] is None:
                     G = to_nx(case['raw'])
@@ -646,10 +677,24 @@ class Run:
                     topo = f.SubstrateTopology() if case['topo'] == 'site' else f.ExperimentTopology()
                     topo.graph_model.importer.delete_graph(graph_id=topo.graph_model.graph_id)
                     topo.graph_model = NetworkxASM(graph_id=case['src'], importer=imp)
+                    try:
+                        names0 = sorted(topo.nodes.keys())
+                    except Exception:
+                        names0 = None
                     if case['ep'] >= 2:
                         fd, fn = tempfile.mkstemp(prefix='c01_', suffix='.txt')
                         os.close(fd)
                         tmpfiles.append(fn)
+                        if case.get('presave'):
+                            # an EARLIER, larger state of the same model was saved to the same path before: put that state
+                            # into the store, save it, then put the current state back (the removal itself was done through
+                            # the topology API when the case was generated)
+                            ps = case['presave']
+                            imp.storage.add_graph_direct(case['src'], to_nx(ps['graph']))
+                            topo.serialize(file_name=fn, fmt=[GraphFormat.GRAPHML, GraphFormat.JSON_NODELINK][ps['fmt']])
+                            out['presave_len'] = os.path.getsize(fn)
+                            cur = [g for d, gid, g in case['pre'] if gid == case['src']][-1]
+                            imp.storage.add_graph_direct(case['src'], to_nx(cur))
                         topo.serialize(file_name=fn, fmt=fmt)
                         with open(fn, 'r', newline='') as fh:
                             text = fh.read()
@@ -661,6 +706,12 @@ class Run:
             except Exception as e:
                 out['ser'] = {'kind': 'err', 'exc': type(e).__name__}
                 text = None
+            if text is not None and topo is not None and case.get('modify'):
+                try:        # the model is changed after the snapshot was taken (through the topology API)
+                    topo.remove_node(name=case['modify'])
+                    out['modified'] = True
+                except Exception as e:
+                    out['modified'] = type(e).__name__
             if text is not None and case.get('peek'):
                 for w in case['watch']:          # "is it there already?" - a lookup must not change what an import does
                     imp.storage.extract_graph(w)
@@ -680,8 +731,11 @@ class Run:
                 try:
                     if topo is not None and case['ep'] != 2:
                         import fim.user as f
-                        t2 = f.SubstrateTopology() if case['topo'] == 'site' else f.ExperimentTopology()
-                        t2.graph_model.importer.delete_graph(graph_id=t2.graph_model.graph_id)
+                        if case.get('reload'):
+                            t2 = topo       # the long-lived topology loads its own snapshot back
+                        else:
+                            t2 = f.SubstrateTopology() if case['topo'] == 'site' else f.ExperimentTopology()
+                            t2.graph_model.importer.delete_graph(graph_id=t2.graph_model.graph_id)
                         if case['ep'] == 0:
                             t2.load(graph_string=text, new_graph_id=case['gid'])
                         elif case['ep'] == 1:
@@ -692,7 +746,7 @@ class Run:
                         try:        # element listings need a complete topology (a shrunk case may not be one)
                             out['topo'] = {'nodes': sorted(t2.nodes.keys()), 'links': sorted(t2.links.keys()),
                                            'services': sorted(t2.network_services.keys()),
-                                           'orig_nodes': sorted(topo.nodes.keys()) if case['gid'] != case['src'] or case['ep'] in (1, 3) else None}
+                                           'orig_nodes': names0}
                         except Exception as e:
                             out['topo'] = {'listing_failed': type(e).__name__}
                     elif case['ep'] == 0:
@@ -708,7 +762,12 @@ class Run:
                     out['res'] = [exc_class(e)]
                 if out['res'][0] == 'ok':
                     try:
-                        out['reser'] = ser_obs(h.serialize_graph(format=fmt), case['fmt'])
+                        if topo is not None and case['ep'] == 3 and fn is not None:
+                            t2.serialize(file_name=fn, fmt=fmt)      # saved again over the same path
+                            with open(fn, 'r', newline='') as fh:
+                                out['reser'] = ser_obs(fh.read(), case['fmt'])
+                        else:
+                            out['reser'] = ser_obs(h.serialize_graph(format=fmt), case['fmt'])
                     except Exception as e:
                         out['reser'] = {'kind': 'err', 'exc': type(e).__name__}
                     try:
@@ -888,7 +947,11 @@ def oracle(case, obs, flavour='shared'):
     tag = 'GraphML' if fmt == 0 else 'JSON'
     crs = ' [string value containing U+000D]' if has_cr(g) else ''
     if obs['ser']['kind'] in ('err', 'absent', 'unparsable'):
-        return '%s: serializing a well-formed graph failed (%s)%s' % (tag, obs['ser'].get('exc') or obs['ser'].get('why') or 'returned None', crs)
+        where = ('the file written by Topology.serialize(file_name=...) is not a %s text' % tag
+                 if case.get('topo') and ep >= 2 and obs['ser']['kind'] == 'unparsable' else 'serializing a well-formed graph failed')
+        if case.get('presave') and obs['ser']['kind'] == 'unparsable':
+            where += ' after a longer text (%s bytes) had been saved to the same path' % obs.get('presave_len')
+        return '%s: %s (%s)%s' % (tag, where, obs['ser'].get('exc') or obs['ser'].get('why') or 'returned None', crs)
     # the text holds exactly the graph's own nodes and the links with both ends in it
     own = case_content(g)
     want = (sorted((tuple(sorted((k, typed(v)) for k, v in d.items())) for d in own['nodes']), key=repr),
@@ -1189,19 +1252,29 @@ class TopoTrip(RoundTrip):
             'Topology.serialize/load); non-trivial = every case; distinct by case value')
 
     def gen(self, rng, tier):
-        n_topo = 32 if tier == 'quick' else 240
+        n_topo = 40 if tier == 'quick' else 240
         out = []
         for i in range(n_topo):
             try:
-                c = gen_topo_case(rng, big=(tier != 'quick' and i % 4 == 0))
-                c['fmt'], c['ep'] = (i // 4) % 2, i % 4
+                variant = ['plain', 'reload', 'plain', 'presave', 'reload'][i % 5]
+                c = gen_topo_case(rng, big=(tier != 'quick' and i % 4 == 0), variant=variant)
+                if variant == 'presave':
+                    c['ep'] = 2 + (i // 5) % 2
+                    if c['presave']['graph'] is not c['pre'][0][2] and len(c['presave']['graph']['nodes']) != len(c['pre'][0][2]['nodes']):
+                        c['fmt'] = (i // 10) % 2
+                else:
+                    c['fmt'], c['ep'] = (i // 4) % 2, i % 4
                 out.append(c)
             except Exception as e:
                 log('C01: topology builder failed: %r' % (e,))
         return out
 
     def corpus(self):
-        return []
+        out = []
+        for p in sorted(glob.glob(os.path.join(VERIF, 'corpus', 'C01', 'topo', '*.json'))):
+            with open(p) as f:
+                out.append(json.load(f))
+        return out
 
 
 def build_resources(rng, big=False):
